@@ -158,6 +158,12 @@ func (c *PullClient) Open() (err error) {
 	}
 
 	defer func() {
+		// a panic while talking to the camera (e.g. on an unexpected SDP) is an
+		// error of this pull, not of the requester: report it and clean up as well
+		if r := recover(); r != nil {
+			c.logger.Errorf("open pull stream panic; %v \n %s", r, debug.Stack())
+			err = fmt.Errorf("open pull stream panic; %v", r)
+		}
 		if err != nil { // 出现任何错误执行断链操作
 			c.disconnect()
 			c.conn = nil
